@@ -94,6 +94,12 @@ HistoryFacts.vos HistoryFacts.vok HistoryFacts.required_vos: HistoryFacts.v Grap
 DenPre.vo DenPre.glob DenPre.v.beautified DenPre.required_vo: DenPre.v Graph.vo GraphFacts.vo Sched.vo SchedInv.vo Dataflow.vo DataflowFacts.vo
 DenPre.vio: DenPre.v Graph.vio GraphFacts.vio Sched.vio SchedInv.vio Dataflow.vio DataflowFacts.vio
 DenPre.vos DenPre.vok DenPre.required_vos: DenPre.v Graph.vos GraphFacts.vos Sched.vos SchedInv.vos Dataflow.vos DataflowFacts.vos
+Reconf.vo Reconf.glob Reconf.v.beautified Reconf.required_vo: Reconf.v 
+Reconf.vio: Reconf.v 
+Reconf.vos Reconf.vok Reconf.required_vos: Reconf.v 
+ReconfFacts.vo ReconfFacts.glob ReconfFacts.v.beautified ReconfFacts.required_vo: ReconfFacts.v Reconf.vo
+ReconfFacts.vio: ReconfFacts.v Reconf.vio
+ReconfFacts.vos ReconfFacts.vok ReconfFacts.required_vos: ReconfFacts.v Reconf.vos
 Properties/C01.vo Properties/C01.glob Properties/C01.v.beautified Properties/C01.required_vo: Properties/C01.v Graph.vo Sched.vo SchedInv.vo Dataflow.vo DataflowFacts.vo
 Properties/C01.vio: Properties/C01.v Graph.vio Sched.vio SchedInv.vio Dataflow.vio DataflowFacts.vio
 Properties/C01.vos Properties/C01.vok Properties/C01.required_vos: Properties/C01.v Graph.vos Sched.vos SchedInv.vos Dataflow.vos DataflowFacts.vos
@@ -103,21 +109,21 @@ Properties/C02.vos Properties/C02.vok Properties/C02.required_vos: Properties/C0
 Properties/C03.vo Properties/C03.glob Properties/C03.v.beautified Properties/C03.required_vo: Properties/C03.v Graph.vo Sched.vo SchedInv.vo SchedGhost.vo
 Properties/C03.vio: Properties/C03.v Graph.vio Sched.vio SchedInv.vio SchedGhost.vio
 Properties/C03.vos Properties/C03.vok Properties/C03.required_vos: Properties/C03.v Graph.vos Sched.vos SchedInv.vos SchedGhost.vos
-Properties/C04.vo Properties/C04.glob Properties/C04.v.beautified Properties/C04.required_vo: Properties/C04.v Graph.vo Sched.vo SchedInv.vo
-Properties/C04.vio: Properties/C04.v Graph.vio Sched.vio SchedInv.vio
-Properties/C04.vos Properties/C04.vok Properties/C04.required_vos: Properties/C04.v Graph.vos Sched.vos SchedInv.vos
-Properties/C05.vo Properties/C05.glob Properties/C05.v.beautified Properties/C05.required_vo: Properties/C05.v Graph.vo Sched.vo SchedInv.vo
-Properties/C05.vio: Properties/C05.v Graph.vio Sched.vio SchedInv.vio
-Properties/C05.vos Properties/C05.vok Properties/C05.required_vos: Properties/C05.v Graph.vos Sched.vos SchedInv.vos
+Properties/C04.vo Properties/C04.glob Properties/C04.v.beautified Properties/C04.required_vo: Properties/C04.v Graph.vo Sched.vo SchedInv.vo Reconf.vo ReconfFacts.vo
+Properties/C04.vio: Properties/C04.v Graph.vio Sched.vio SchedInv.vio Reconf.vio ReconfFacts.vio
+Properties/C04.vos Properties/C04.vok Properties/C04.required_vos: Properties/C04.v Graph.vos Sched.vos SchedInv.vos Reconf.vos ReconfFacts.vos
+Properties/C05.vo Properties/C05.glob Properties/C05.v.beautified Properties/C05.required_vo: Properties/C05.v Graph.vo Sched.vo SchedInv.vo Reconf.vo ReconfFacts.vo
+Properties/C05.vio: Properties/C05.v Graph.vio Sched.vio SchedInv.vio Reconf.vio ReconfFacts.vio
+Properties/C05.vos Properties/C05.vok Properties/C05.required_vos: Properties/C05.v Graph.vos Sched.vos SchedInv.vos Reconf.vos ReconfFacts.vos
 Properties/C06.vo Properties/C06.glob Properties/C06.v.beautified Properties/C06.required_vo: Properties/C06.v Graph.vo Sched.vo SchedInv.vo SchedPrio.vo
 Properties/C06.vio: Properties/C06.v Graph.vio Sched.vio SchedInv.vio SchedPrio.vio
 Properties/C06.vos Properties/C06.vok Properties/C06.required_vos: Properties/C06.v Graph.vos Sched.vos SchedInv.vos SchedPrio.vos
-Properties/C07.vo Properties/C07.glob Properties/C07.v.beautified Properties/C07.required_vo: Properties/C07.v Graph.vo Closure.vo Priority.vo PriorityFacts.vo Sched.vo SchedInv.vo SchedPrio.vo
-Properties/C07.vio: Properties/C07.v Graph.vio Closure.vio Priority.vio PriorityFacts.vio Sched.vio SchedInv.vio SchedPrio.vio
-Properties/C07.vos Properties/C07.vok Properties/C07.required_vos: Properties/C07.v Graph.vos Closure.vos Priority.vos PriorityFacts.vos Sched.vos SchedInv.vos SchedPrio.vos
-Properties/C08.vo Properties/C08.glob Properties/C08.v.beautified Properties/C08.required_vo: Properties/C08.v Graph.vo Sched.vo SchedInv.vo SchedPrio.vo
-Properties/C08.vio: Properties/C08.v Graph.vio Sched.vio SchedInv.vio SchedPrio.vio
-Properties/C08.vos Properties/C08.vok Properties/C08.required_vos: Properties/C08.v Graph.vos Sched.vos SchedInv.vos SchedPrio.vos
+Properties/C07.vo Properties/C07.glob Properties/C07.v.beautified Properties/C07.required_vo: Properties/C07.v Graph.vo Closure.vo Priority.vo PriorityFacts.vo Sched.vo SchedInv.vo SchedPrio.vo Reconf.vo ReconfFacts.vo
+Properties/C07.vio: Properties/C07.v Graph.vio Closure.vio Priority.vio PriorityFacts.vio Sched.vio SchedInv.vio SchedPrio.vio Reconf.vio ReconfFacts.vio
+Properties/C07.vos Properties/C07.vok Properties/C07.required_vos: Properties/C07.v Graph.vos Closure.vos Priority.vos PriorityFacts.vos Sched.vos SchedInv.vos SchedPrio.vos Reconf.vos ReconfFacts.vos
+Properties/C08.vo Properties/C08.glob Properties/C08.v.beautified Properties/C08.required_vo: Properties/C08.v Graph.vo Sched.vo SchedInv.vo SchedPrio.vo Reconf.vo ReconfFacts.vo
+Properties/C08.vio: Properties/C08.v Graph.vio Sched.vio SchedInv.vio SchedPrio.vio Reconf.vio ReconfFacts.vio
+Properties/C08.vos Properties/C08.vok Properties/C08.required_vos: Properties/C08.v Graph.vos Sched.vos SchedInv.vos SchedPrio.vos Reconf.vos ReconfFacts.vos
 Properties/C09.vo Properties/C09.glob Properties/C09.v.beautified Properties/C09.required_vo: Properties/C09.v Graph.vo Sched.vo SchedInv.vo SchedGhost.vo SchedProgress.vo
 Properties/C09.vio: Properties/C09.v Graph.vio Sched.vio SchedInv.vio SchedGhost.vio SchedProgress.vio
 Properties/C09.vos Properties/C09.vok Properties/C09.required_vos: Properties/C09.v Graph.vos Sched.vos SchedInv.vos SchedGhost.vos SchedProgress.vos
